@@ -15,6 +15,7 @@ import (
 	"strconv"
 	"strings"
 	"sync"
+	"sync/atomic"
 )
 
 // Map perturbation kinds (tape value -> kind). 0 is always "canonical".
@@ -100,6 +101,8 @@ type taskState struct {
 	polling    bool   // parked in the default clause of a rewritten select
 	pollGen    int64  // unlockGen+1 when this task last looked at its select cases (0 = never)
 	where      string // site of the last Blocked call (debugging aid)
+	sleepUntil int64  // != 0: asleep until the simulated clock reaches it
+	condWait   bool   // parked in CondWait, not yet signalled
 }
 
 type sim struct {
@@ -130,6 +133,20 @@ type sim struct {
 	entropy uint64
 	issued  [][16]byte
 	onceTab []onceState
+
+	// discrete-event time (time.go)
+	timers    []timerState
+	timerSeq  int64
+	npending  int // active timers
+	keep      []any
+	daemonOn  bool
+	daemonReq func()
+	ended     bool
+	sweepGen  int64 // unlockGen at which the last-chance retry round was started
+
+	// cooperative sync.Cond / simulated sync.Pool / sync.Map (sync2.go)
+	condTab []condState
+	poolTab []*poolState
 }
 
 type onceState struct {
@@ -233,12 +250,16 @@ func splitmix(x *uint64) uint64 {
 //
 //go:norace
 func Begin(cfg Config) {
-	s := &sim{cfg: cfg, rng: cfg.Seed, turn: -2}
+	s := &sim{cfg: cfg, rng: cfg.Seed, turn: -2, sweepGen: -1}
 	s.tape = append([]uint32(nil), cfg.Tape...)
 	s.stats.Fingerprint = 0xcbf29ce484222325
 	s.ms = 1_700_000_000_000
 	s.stats.ClockMin = s.ms
 	s.stats.ClockMax = s.ms
+	if timerDaemonWanted {
+		s.daemonOn = true
+		go timerDaemon(s)
+	}
 	cur = s
 }
 
@@ -251,6 +272,7 @@ func End() Stats {
 	if s == nil {
 		return Stats{}
 	}
+	s.ended = true
 	if s.pos < len(s.tape) {
 		s.stats.TapeUsed = s.tape[:s.pos]
 	} else {
@@ -510,10 +532,27 @@ func Go(f func()) {
 		go f()
 		return
 	}
+	s.spawn(f, nil)
+}
+
+// spawn registers f as a new simulated task. timerRel != nil: the goroutine is
+// created by the timer daemon (time.AfterFunc), so that no happens-before edge
+// leads from the task that advanced the clock to f; the one from the task that
+// armed the timer is kept through timerRel.
+//
+//go:norace
+func (s *sim) spawn(f func(), timerRel *atomic.Int32) {
+	start := func(g func()) {
+		if timerRel != nil {
+			s.viaDaemon(func() { timerRel.Load(); g() })
+		} else {
+			g()
+		}
+	}
 	if s.tasks == nil {
 		if !s.inline {
 			// driver context (warm-up history, references): not scheduled
-			go runTask(f)
+			start(func() { go runTask(f) })
 			return
 		}
 		// promote the inline single-task run: the driver goroutine is task 0
@@ -523,7 +562,7 @@ func Go(f func()) {
 	}
 	if s.turn < 0 {
 		s.fault("uncontrolled.goroutine")
-		go runTask(f)
+		start(func() { go runTask(f) })
 		return
 	}
 	// reuse the slot of a finished spawned task (the table never grows beyond
@@ -539,7 +578,7 @@ func Go(f func()) {
 	if id < 0 {
 		if len(s.tasks) >= maxTasks {
 			s.fault("uncontrolled.goroutine")
-			go runTask(f)
+			start(func() { go runTask(f) })
 			return
 		}
 		id = len(s.tasks)
@@ -548,7 +587,7 @@ func Go(f func()) {
 	s.joined.Add(1)
 	s.fault("spawn")
 	s.event("sched", "spawn", int64(id))
-	go taskMain(s, id, f, &s.joined)
+	start(func() { go taskMain(s, id, f, &s.joined) })
 }
 
 //go:norace
@@ -612,6 +651,9 @@ func (s *sim) exitTask(id int) {
 		return
 	}
 	r := s.runnable(id, false)
+	for len(r) == 0 && s.unstall() {
+		r = s.runnable(id, false)
+	}
 	if len(r) == 0 {
 		// the remaining tasks are all parked on locks: deadlock
 		if s.unsupportedStall() {
@@ -658,6 +700,9 @@ func (s *sim) runnable(self int, withSelf bool) []int {
 		if t.blocked && t.blockedGen == s.unlockGen {
 			continue
 		}
+		if t.sleepUntil != 0 && s.ms < t.sleepUntil {
+			continue
+		}
 		r = append(r, i)
 	}
 	return r
@@ -701,6 +746,11 @@ func Yield(site string) {
 		s.stats.Aborted = true
 		panic(abortSignal{})
 	}
+	if s.npending > 0 && s.cfg.ClockDen > 0 && s.draw(8*s.cfg.ClockDen) == 1 {
+		// time passes although tasks could still run (slow tasks are a legal
+		// schedule): the next pending timer fires now
+		s.idleAdvance("clock.early_jump")
+	}
 	if s.cfg.PreemptDen == 0 {
 		return
 	}
@@ -739,6 +789,14 @@ func Blocked(site string) {
 	t.blockedGen = s.unlockGen
 	t.where = site
 	r := s.runnable(id, false)
+	for len(r) == 0 && s.unstall() {
+		if t.blockedGen != s.unlockGen {
+			// what this task waits for may have happened: look again
+			t.blocked = false
+			return
+		}
+		r = s.runnable(id, false)
+	}
 	if len(r) == 0 {
 		if s.unsupportedStall() {
 			unsupported("every task is parked and two or more of them poll a select statement (" + site + "): they may be waiting for each other over an unbuffered channel")
@@ -756,6 +814,31 @@ func Blocked(site string) {
 	s.turn = r[pick]
 	s.park(id)
 	t.blocked = false
+}
+
+// unstall is called when no task is runnable. First, simulated time passes up
+// to the next pending wake-up (discrete-event clock). Failing that, every parked
+// task gets one last-chance retry round per generation: a wake-up source the
+// instrumenter does not know (a channel closed inside the standard library, a
+// callback of a dependency) must not be mistaken for a deadlock. Only a stall
+// that survives a whole retry round in which nothing was released is final.
+//
+//go:norace
+func (s *sim) unstall() bool {
+	s.stats.Steps++
+	if s.cfg.MaxSteps > 0 && s.stats.Steps > s.cfg.MaxSteps {
+		return false // e.g. a ticker nobody listens to any more
+	}
+	if s.idleAdvance("clock.idle_jump") {
+		return true
+	}
+	if s.sweepGen == s.unlockGen {
+		return false
+	}
+	s.unlockGen++
+	s.sweepGen = s.unlockGen
+	s.fault("stall.retry")
+	return true
 }
 
 // Unlocked tells the scheduler that some lock was released.
